@@ -228,6 +228,11 @@ theorem split_is_source (ps : List (Value N)) : Stdlib.split ps = SrcStdlib.spli
   · cases a <;> cases b <;> rfl
   · cases a <;> cases b <;> rfl
 
+theorem sort_is_source (ps : List (Value N)) : StdOrder.sort ps = SrcStdlib.sort ps := by
+  rcases ps with _ | ⟨a, _ | ⟨b, r⟩⟩
+  · rfl
+  · cases a <;> rfl
+  · cases a <;> rfl
 theorem chr_is_source (ps : List (Value N)) : Stdlib.chr ps = SrcStdlib.chr ps := by
   rcases ps with _ | ⟨a, _ | ⟨b, r⟩⟩
   · rfl
